@@ -12,10 +12,18 @@
        the LAST call the run makes (nothing follows it among the consumed calls), and
    (4) [error_answer_gives_matching_error]: the outcome of a run that received such an answer is the matching
        error, carrying for get_dependencies the queried package and version.
-   The tie to the Rust code is the fault enumeration of the harness (a fault at every index of every base trace). *)
+   (5) [fault_injection_theorem] (two runs): if the fault-free run made the call that the event e answers, the run
+       that receives instead a faulty answer e' to that same call (an error, or for choose_version a version
+       outside the offered set) makes exactly the same calls with the same answers up to that point, then that
+       call, and stops with the matching outcome - ErrorInShouldCancel / ErrorChoosingPackageVersion /
+       ErrorRetrievingDependencies(p, v) / Failure - whatever would have followed;
+   (6) [out_of_set_answer_is_failure]: a consumed choose_version answer outside the offered set is the last call
+       and the outcome is Failure (never a solution).
+   All clauses of the property are thus theorems about the model.  The tie to the Rust code is the fault
+   enumeration of the harness (a fault at every index of every base trace). *)
 From Coq Require Import List NArith Bool.
 From PG Require Import Model.VS Model.Term Model.Solver Proofs.SolverTrace.
-From PG Require Import Proofs.SolverFaults.
+From PG Require Import Proofs.SolverFaults Proofs.SolverInject.
 Import ListNotations.
 
 Section C13.
@@ -60,6 +68,40 @@ Section C13.
     intros [[|]| |p s [v| |]|p v [d|m|]]; cbn; split; intros H; try discriminate; try reflexivity; eauto;
       destruct H as [H|[(? & ? & H)|(? & ? & H)]]; discriminate.
   Qed.
+
+  Theorem fault_injection_theorem :
+    (forall a b, veqb a b = true -> a = b) -> (forall a b, vs_eqb O a b = true -> a = b) ->
+    forall fuel r v (pre : list (event (VS := VS) (Vr := Vr))) e rest e' rest',
+      fault_of O e e' ->
+      length pre < snd (resolve O veqb fuel r v (pre ++ e :: rest)) ->
+      (exists st' log',
+         resolve O veqb fuel r v (pre ++ e' :: rest') = (fault_outcome e', st', log', S (length pre)))
+      /\ firstn (S (length pre)) (pre ++ e' :: rest') = pre ++ [e'].
+  Proof.
+    intros Hv Hs fuel r v pre e rest e' rest' Hf Hlt. split.
+    - exact (fault_injection O veqb Hv Hs fuel r v pre e rest e' rest' Hf Hlt).
+    - exact (proj1 (proj2 (fault_injection_same_calls O veqb Hv Hs fuel r v pre e rest e' rest' Hf Hlt))).
+  Qed.
+
+  Theorem out_of_set_answer_is_failure :
+    (forall a b, veqb a b = true -> a = b) -> (forall a b, vs_eqb O a b = true -> a = b) ->
+    forall fuel r v (tr : list (event (VS := VS) (Vr := Vr))) o st log cnt i p s w,
+      resolve O veqb fuel r v tr = (o, st, log, cnt) ->
+      i < cnt -> nth_error tr i = Some (EvChoose p s (CSome w)) -> vs_contains O s w = false ->
+      o = OFailure FIncompatibleVersion /\ cnt = S i.
+  Proof. exact (out_of_set_is_failure O veqb). Qed.
+
+  (* reading of [fault_of e e']: e' is a faulty answer to the very call that e answers *)
+  Theorem fault_of_unfold : forall e e' : event (VS := VS) (Vr := Vr),
+    fault_of O e e' <->
+    match e, e' with
+    | EvCancel _, EvCancel false => True
+    | EvChoose p s _, EvChoose p' s' CErr => p = p' /\ s = s'
+    | EvChoose p s _, EvChoose p' s' (CSome w) => p = p' /\ s = s' /\ vs_contains O s w = false
+    | EvDeps p v _, EvDeps p' v' DErr => p = p' /\ v = v'
+    | _, _ => False
+    end.
+  Proof. intros e e'. reflexivity. Qed.
 End C13.
 
 Print Assumptions resolve_trace_prefix.
@@ -67,3 +109,6 @@ Print Assumptions resolve_error_outcome_explained.
 Print Assumptions error_answer_is_last_call.
 Print Assumptions error_answer_gives_matching_error.
 Print Assumptions is_err_iff.
+Print Assumptions fault_injection_theorem.
+Print Assumptions out_of_set_answer_is_failure.
+Print Assumptions fault_of_unfold.
